@@ -65,7 +65,7 @@ func litSamples(rng *rand.Rand, kind string) string {
 			}
 			return lit + `"`
 		}
-		return pick(`"abc"`, `""`, `"a\tb"`, `"\u00e9"`, `"é"`, `"\x41\x80"`, `"\101"`, `"\400"`, `"\q"`, `"\/"`, "\"a\xffb\"", `"unterminated`, "\"a\nb\"", "\"\n\"", `"\"`, `"a\"b"`, "`raw\n`", "``", "`unterminated",
+		return pick(`"abc"`, `""`, `"a\tb"`, `"\u00e9"`, `"é"`, `"\x41\x80"`, `"\101"`, `"\400"`, `"\q"`, `"\/"`, "\"a\xffb\"", "\"a\x80b\"", "\"\x80\"", `"unterminated`, "\"a\nb\"", "\"\n\"", `"\"`, `"a\"b"`, "`raw\n`", "``", "`unterminated",
 			`"\ud800"`, `"\U0001F600"`, `"\U00110000"`, "\"é\nx\"", "\"\\t\nx\"", `"\'"`, `"'"`, "\"\r\"", `"a\`, "\"\xe2\x82\"", `"😀"`)
 	case "char":
 		return pick(`'a'`, `'\n'`, `'\''`, `'\\'`, `'\x41'`, `'\xff'`, `'\u00e9'`, `'\ud800'`, `'\U0001F600'`, `'\U00110000'`, `'é'`, `'ab'`, `''`, `'`, `'a`, "'\xff'", "'\n'", `'\q'`, `'"'`, `'\"'`, `'\x4'`, `'😀'`, `'\101'`)
